@@ -62,6 +62,8 @@ class BatchWorld(World):
         c["B"] = B
         # the batched replica either is constructed with batch size B or reaches it through the batchsz setter after a probe step
         cfg = {"level": level, "B": B, "c": c, "resized_from": rc.choice([None, None, 1, 1, 2]) if level in ("neuron", "synapse", "connection", "layer") else None}
+        # the neuron batchsz setter resets the neuron itself: half of the resized neuron replicas are used as the setter leaves them
+        cfg["clear_after_resize"] = stream(seed, "resize").random() < 0.5
         T = ro.randint(4, 20 if tier == "thorough" else 14)
         ops = []
         for t in range(T):
@@ -117,7 +119,8 @@ class BatchWorld(World):
             m.eval()        # adaptation frozen
         if B0 and B0 != B:
             self._resize(ctx, facts, big, B, lambda: big(torch.ones((B0,) + tuple(c["shape"])) * 3.0))
-            big.clear()
+            if cfg.get("clear_after_resize", True):
+                big.clear()
         shape = tuple(c["shape"])
         gap = c["thresh"] - c["rest"]
         ctx.log("config", "neuron", c["cls"], B)
@@ -159,7 +162,7 @@ class BatchWorld(World):
                 big(*([x0] + ([torch.ones((B0,) + shape)] if c["kind"] == "deltaplus" else [])))
                 big.current_at(torch.zeros((B0,) + shape))
             self._resize(ctx, facts, big, B, probe)
-            big.clear()
+            big.clear()       # a synapse keeps the retained samples' history across a resize: the comparison starts from a cleared state
         ctx.log("config", "synapse", c["kind"], B, c["delay_k"])
         nsp = 0
         for op in desc["ops"]:
